@@ -1017,4 +1017,13 @@ MUTANTS = [
      "edits": [("src/mailbox/coe/mod.rs", "        .timeout(self.subdevice.maindevice.timeouts.mailbox_response())", "        .timeout(self.subdevice.maindevice.timeouts.mailbox_echo())")]},
     {"id": "wait-c16-new-poll-loop", "property": "C16", "expect": "C16.bounded|Coe::wait_for_mailboxes",
      "edits": [("src/mailbox/coe/mod.rs", "        for i in 0..10 {\n            let sm_status = self", "        let mut i = 0;\n        loop {\n            i += 1;\n            let sm_status = self")]},
+    # round-3 seeds that were missed on arrival, as mutants of the rules added for them
+    {"id": "c10-into-op-via-request", "property": "C10", "expect": "C10.ctor|request_into_op:no-internal-caller",
+     "edits": [("src/subdevice_group/mod.rs", "        let self_ = self.into_safe_op(maindevice).await?;\n\n        self_.transition_to(maindevice, SubDeviceState::Op).await\n    }\n\n    /// Like [`into_op`](SubDeviceGroup::into_op), however does not wait for all SubDevices to enter", "        let self_ = self.into_safe_op(maindevice).await?;\n\n        self_.request_into_op(maindevice).await\n    }\n\n    /// Like [`into_op`](SubDeviceGroup::into_op), however does not wait for all SubDevices to enter")]},
+    {"id": "c15-drain-wrong-mailbox-len", "property": "C15", "expect": "C15.mbox|Coe::wait_for_mailboxes:address-and-length-of-one-mailbox",
+     "edits": [("src/mailbox/coe/mod.rs", "                    .receive_slice(self.subdevice.maindevice, read_mailbox.len)\n                    .await?;\n            } else {", "                    .receive_slice(self.subdevice.maindevice, write_mailbox.len)\n                    .await?;\n            } else {")]},
+    {"id": "c17-no-parent-exit-keeps-zero", "property": "C17", "expect": "C17.acc|delay-assigned-on-every-exit",
+     "edits": [("src/dc.rs", "            subdevice.propagation_delay = *delay_accum;\n\n            return;", "            return;")]},
+    {"id": "c12-cursor-by-whole-chunk", "property": "C12", "expect": "C12.read|cursor-advances-by-bytes-copied",
+     "edits": [("src/eeprom/mod.rs", "                bytes_read += chunk.len();\n                self.byte_pos += chunk.len() as u32;\n\n                buf.copy_from_slice(chunk);", "                bytes_read += chunk.len();\n                self.byte_pos += (chunk.len() + _rest.len()) as u32;\n\n                buf.copy_from_slice(chunk);")]},
 ]
